@@ -11,6 +11,9 @@ CHECKS = {
  'C03': dict(cat='model_checking', design='5/C03', technique='TLA+ spec (JsonText) predicts verdict and event sequence; TLC-enumerated texts delivered in every chunk composition / source / observer and compared with the contiguous, spec-checked observation',
    text='Every TLC-enumerated text (valid, invalid, every strict prefix) is delivered contiguously (events compared with the spec prediction) and then in all 2^(n-1) chunk compositions to the push parser, through stream/iterator sources with every buffer size, and to cursor, filtered cursor, read_to and staj iterators; events on success and error code on failure must equal the contiguous observation.',
    note='JSON text only; bounded-exhaustive in text length (5/6 characters, 3/4 tokens). Error codes are compared differentially only. Inputs with no value at all are not compared for cursors.'),
+ 'C16': dict(cat='model_checking', design='5/C16', technique='TLA+ transcription of the RFC 7386 MergePatch pseudo-code; TLC enumerates all document pairs with predicted result (replayed), and validates every recorded from_diff output as a trace against the spec',
+   text='TLC enumerates every ordered pair of a bounded document universe (depth 2, keys a/b, null/bool/int/string scalars, arrays) with Merge(target, patch) predicted by the spec; apply_merge_patch is replayed for json and ojson. Every diff produced by from_diff is recorded and validated by the TLC trace spec Trace_C16: the spec Merge applied to the recorded diff must equal the target.',
+   note='Bounded-exhaustive over the stated universe (25.6k pairs quick, 1.6M thorough). The diff-law side condition is taken strictly (no null member anywhere in the target).'),
 }
 NA = {}
 
